@@ -157,7 +157,7 @@ def m1_check(prop, tier, seed, subchecks, oracle_key, known_ids, rule, assumptio
     chk = vflib.Check(prop, tier, seed)
     chk.assumptions = assumptions
     chk.cov["trusted_base"] = vflib.TRUSTED_COMMON + [
-        "modelled, not verified: Rust str::trim for non-ASCII white space; f64 printing (carried as rendered text); error messages (only kinds compared)"]
+        "modelled, not verified: f64 printing (carried as rendered text); error messages (only kinds compared)"]
     vflib.proof_stage(chk, "m1", prop)
     res = run_m1(tier, seed)
     if "build_error" in res or "coq_error" in res:
